@@ -51,8 +51,20 @@ DENSE = [
     # absent = 2 (0 is an ordinary weight), self = absent among the self values
     ("und-dense3-abs2", "{0,1,2,3}", "FALSE", "{0,1,2}", 3, 2, "{2,7}", "{0}", UM, True),
     ("dir-dense2-abs2", "{0,1,2}", "TRUE", "{0,1,2}", 2, 2, "{2,7}", "{0,1}", DM, True),
+    # three nodes, one ordinary weight token beside absent = 2 (129 states): replayed under the NaN / Inf bindings below
+    ("dir-dense3-w2", "{0,1,2,3}", "TRUE", "{1,2}", 3, 2, "{2,7}", "{0}", DM, True),
     ("dir-dense3-id", "{0,1,2,3}", "TRUE", "{0,1}", 3, 0, "{0,7}", "{0,1}", DM, False),
     ("und-dense4", "{0,1,2,3,4}", "FALSE", "{0,1}", 4, 0, "{0,7}", "{0}", UM, False),
+]
+# dense families replayed again (tour and views) with weight tokens bound to special float values (replay argument
+# bind=token:nan|pinf|ninf): the absent token (which is also an init value and, in the abs2 / w2 families, a self
+# value) as NaN, +Inf, -Inf; a self token as NaN / +Inf beside an ordinary absent
+DENSE_BIND = [
+    # family, bind, quick?
+    ("dir-dense3-w2", "2:nan", True), ("dir-dense3-w2", "2:pinf", True), ("dir-dense3-w2", "2:ninf", True),
+    ("und-dense3-abs2", "2:nan", True), ("und-dense3-abs2", "2:pinf", True), ("und-dense3-abs2", "2:ninf", True),
+    ("dir-dense2-abs2", "2:nan,7:pinf", True), ("und-dense3-id", "7:nan", True),
+    ("dir-dense3-id", "0:nan", False), ("und-dense4", "0:nan,7:ninf", False), ("dir-dense3", "0:nan", False),
 ]
 MULTI = [
     ("mdir-2x2", "{0,1}", "{0,1}", "TRUE", "{1}", "multi.DirectedGraph,multi.WeightedDirectedGraph", True),
@@ -181,6 +193,13 @@ def run(ctx):
             if quick or thorough:
                 rep(bn, "graph-simple", ("dense", name), ["types=" + ty, "ids=" + ids_json(ids), "absent=%d" % ab],
                     "R2 replay dense " + name)
+        dense = {e[0]: e for e in DENSE}
+        for fam, bind, quick in DENSE_BIND:
+            if quick or thorough:
+                name, ids, d, w, n, ab, selfs, pays, ty, q = dense[fam]
+                a = ["types=" + ty, "ids=" + ids_json(ids), "absent=%d" % ab, "bind=" + bind]
+                rep(bn, "graph-simple", ("dense", name), a, "R2 replay dense %s bind %s" % (name, bind))
+                rep(bn, "graph-simple", ("dense", name), a + ["views=1"], "R2 views dense %s bind %s" % (name, bind))
         for name, ids, lids, d, w, types, quick in MULTI:
             if quick or thorough:
                 rep(bn, "graph-multi", ("multi", name), ["types=" + types, "ids=" + ids_json(ids)], "R2 replay multi " + name)
